@@ -18,6 +18,9 @@ RayCrosses(a, b, p) ==
                       ELSE (p[1] - a[1]) * (b[2] - a[2]) > (p[2] - a[2]) * (b[1] - a[1])
 \* <<r, k>>: the segment rings[r][k] -- rings[r][k+1]
 SegIdx(rings) == UNION {{<<r, k>> : k \in 1..(Len(rings[r]) - 1)} : r \in DOMAIN rings}
+\* a polygon ring may be written without repeating its first point at the end (>= 3 points): it is closed implicitly
+CloseRing(r) == IF r[1] = r[Len(r)] THEN r ELSE Append(r, r[1])
+CloseRings(rings) == [q \in DOMAIN rings |-> CloseRing(rings[q])]
 OnPath(path, p) == \E k \in 1..(Len(path) - 1) : OnSeg(path[k], path[k + 1], p)
 \* position of a point relative to a polygon (even-odd over all rings): "in" | "out" | "edge"
 PolyStatus(rings, p) ==
